@@ -238,6 +238,7 @@ void h_free(void)
     Slot *first0 = sg.m_first, *last0 = sg.m_last;
     Slot *nx = s ? s->m_next : (Slot *)0, *pv = s ? s->m_prev : (Slot *)0;
     Slot saved[NSLOTS]; for (int i = 0; i < NSLOTS; ++i) saved[i] = g_pool[i];
+    for (int i = 0; i < NSLOTS; ++i) { g_uattr[i][0] = (int16)nondet_unsigned(); g_uattr[i][1] = (int16)nondet_unsigned(); }     /* user attributes set by earlier rules */
     Segment_freeSlot(&sg, s);
     if (s) {
         live[IDX(s)] = false;
@@ -246,6 +247,7 @@ void h_free(void)
         if (copy_case) for (int i = 0; i < NSLOTS; ++i) if (live[i])
             __CPROVER_assert(g_pool[i].m_parent == saved[i].m_parent && g_pool[i].m_child == saved[i].m_child && g_pool[i].m_sibling == saved[i].m_sibling, "freeSlot of a temporary copy leaves the attachments of the stream slots alone (the copy's child pointer belongs to the original)");
         __CPROVER_assert(sg.m_first == (first0 == s ? nx : first0) && sg.m_last == (last0 == s ? pv : last0), "freeSlot: first/last move off the freed slot");
+        __CPROVER_assert(s->m_userAttr == g_uattr[IDX(s)] && s->m_userAttr[0] == 0 && s->m_userAttr[1] == 0, "freeSlot: every user-attribute cell of the freed slot (numUser of them) is cleared - a slot recycled by a later insert starts with the attribute values of a new slot, not with those of the deleted one");
         __CPROVER_assert(sg.m_freeSlots == s && s->m_parent == (Slot *)0 && s->m_child == (Slot *)0 && s->m_sibling == (Slot *)0 && s->m_prev == (Slot *)0, "freeSlot: the slot is reset and pushed on the free list");
     }
     CANARY();
